@@ -47,7 +47,7 @@ type c14Ev struct {
 }
 
 // c14Hung is set when a request did not return from the limiter within the watchdog (everything is blocked).
-var c14Hung atomic.Bool
+var c14Hung, c14EverHung atomic.Bool
 
 type c14Dec struct {
 	Admitted bool
@@ -228,7 +228,7 @@ func c14Rate(c *Ctx) {
 			}
 			evs = out
 		}
-		if perSrc && r.IntN(2) == 0 {
+		if perSrc && r.IntN(2) == 0 && !c14EverHung.Load() {
 			// one source's extractor call faults once or twice somewhere in the history
 			for k := 1 + r.IntN(2); k > 0; k-- {
 				at := r.IntN(len(evs))
@@ -242,6 +242,7 @@ func c14Rate(c *Ctx) {
 		if c14Hung.Load() {
 			c.Violation("rate/hang-after-fault", sfmt("rates %v, %d sources: after one request died inside the limiter (its rate extractor returned no rate set) a later request of another source did not return within 20s: the limiter is blocked for everybody", rs, nsrc), map[string]any{"rates": rs, "sources": nsrc})
 			c14Hung.Store(false)
+			c14EverHung.Store(true) // reported once; the remaining cases of this process run without fault injection
 			return
 		}
 		both := 0
